@@ -1476,7 +1476,14 @@ impl Core {
 		// CRITICAL ORDERING: Immutable memtables must be flushed BEFORE active memtable
 		// to preserve SSTable ordering (older data = lower table_ids)
 		// IMPORTANT: We do NOT rotate the WAL here to avoid creating an empty WAL file
-		if self.inner.opts.flush_on_close {
+		// After a failed flush, compaction or manifest update the files on disk may be
+		// ahead of what this instance believes (a manifest can be installed although its
+		// final sync reported an error). Flushing again would reuse table ids and overwrite
+		// files that manifest references; the commit log still holds everything, so leave
+		// the rest to the next recovery.
+		if self.inner.opts.flush_on_close && self.inner.error_handler.check_error().is_err() {
+			log::warn!("Skipping flush on shutdown: a background error is set");
+		} else if self.inner.opts.flush_on_close {
 			log::info!("Flushing all memtables on shutdown (flush_on_close=true)");
 
 			// Flush ALL memtables: immutables first (older data), then active (newest data)
